@@ -1589,7 +1589,12 @@ fn parse_mapping(mapping: &Mapping) -> crate::Result<Expression> {
                 }
                 if group.is_empty() {
                     return Err(crate::error::parse_invalid_ident("failed to parse mapping"));
-                } else if !multiple && group.len() == 1 {
+                } else if !multiple
+                    && group.len() == 1
+                    // NOTE: `of(k, 0)` and `of(k, n)` for n > 1 do not mean the same as the member on
+                    // its own, so they must keep their quantifier.
+                    && !matches!(e, Expression::Match(Match::Of(c), _) if c != 1)
+                {
                     group.into_iter().next().expect("could not get expression")
                 } else if let Expression::Match(m, _) = e {
                     if group.len() == 1 {
